@@ -4,6 +4,7 @@ import (
 	"fmt"
 	"go/constant"
 	"go/token"
+	"go/types"
 	"sort"
 	"strings"
 
@@ -224,7 +225,21 @@ func (v *Valuation) effect(in ssa.Instruction) {
 		if v.tracked[x.Addr] {
 			v.mem[x.Addr] = v.term(x.Val, 0)
 		}
+	case *ssa.FieldAddr:
+		// a field address through a pointer: had the pointer been nil, the execution would have panicked here
+		if _, isPtr := x.X.Type().Underlying().(*types.Pointer); isPtr {
+			v.noteNonNil(x.X)
+		}
 	case *ssa.UnOp:
+		if x.Op == token.MUL {
+			if _, isCell := x.X.(*ssa.Alloc); !isCell {
+				if _, isG := x.X.(*ssa.Global); !isG {
+					if _, isFV := x.X.(*ssa.FreeVar); !isFV {
+						v.noteNonNil(x.X)
+					}
+				}
+			}
+		}
 		if x.Op == token.MUL && v.tracked[x.X] {
 			if t, ok := v.mem[x.X]; ok {
 				v.alias[x] = t
@@ -233,6 +248,20 @@ func (v *Valuation) effect(in ssa.Instruction) {
 				v.mem[x.X] = aterm{key: "v:" + x.Name(), deps: []ssa.Value{x}}
 			}
 		}
+	}
+}
+
+func (v *Valuation) noteNonNil(p ssa.Value) {
+	t := v.term(p, 0)
+	if t.nonnil || t.key == "nil" || t.neg {
+		return
+	}
+	ks := []string{t.key, "nil"}
+	sort.Strings(ks)
+	k := "eq(" + ks[0] + "," + ks[1] + ")"
+	if _, has := v.known[k]; !has {
+		v.known[k] = false
+		v.deps[k] = t.deps
 	}
 }
 
